@@ -1,2 +1,9 @@
 #!/bin/sh
-exit 0
+# Builds the fact-extractor driver (offline, nightly) and pre-warms the dependency build
+# of the primary configuration so that quick checks only re-check the workspace members.
+set -e
+cd "$(dirname "$0")"
+export CARGO_NET_OFFLINE=true
+(cd driver && cargo +nightly build --offline)
+python3 rules/facts.py Q >/dev/null
+echo "setup ok"
